@@ -1249,6 +1249,7 @@ class Wrapc(util.WrapperMixin):
 
         # generate the C body
         post_call_pattern = []
+        enum_indirect_result = False
         if node.C_error_pattern is not None:
             C_error_pattern = statements.compute_name(
                 [node.C_error_pattern, generated_suffix])
@@ -1295,9 +1296,20 @@ class Wrapc(util.WrapperMixin):
                     fmt_result.c_rv_decl = CXX_ast.gen_arg_as_c(
                         name=fmt_result.c_var, params=None, continuation=True
                     )
-                    fmt_result.c_val = wformat(
-                        result_typemap.cxx_to_c, fmt_result
-                    )
+                    if CXX_ast.is_indirect() and \
+                       result_typemap.name in self.enum_typemaps:
+                        # cxx_to_c converts a value.  A pointer or
+                        # reference to an enum is returned as a pointer
+                        # to its int form (like a struct).
+                        enum_indirect_result = True
+                        fmt_result.c_val = wformat(
+                            "static_cast<{c_const}{c_type} *>\t"
+                            "(static_cast<{c_const}void *>(\t"
+                            "{cxx_addr}{cxx_var}))", fmt_result)
+                    else:
+                        fmt_result.c_val = wformat(
+                            result_typemap.cxx_to_c, fmt_result
+                        )
                     append_format(
                         return_code, "{c_rv_decl} =\t {c_val};", fmt_result
                     )
@@ -1329,7 +1341,11 @@ class Wrapc(util.WrapperMixin):
         elif result_arg is None and C_subprogram == "function":
             # Note: A C function may be converted into a Fortran subroutine
             # subprogram when the result is returned in an argument.
-            fmt_result.c_get_value = statements.compute_return_prefix(ast, c_local_var)
+            if enum_indirect_result:
+                # c_var is already the pointer to return.
+                fmt_result.c_get_value = ""
+            else:
+                fmt_result.c_get_value = statements.compute_return_prefix(ast, c_local_var)
             raw_return_code = ["return {c_get_value}{c_var};"]
         else:
             # XXX - No return for void statements.
